@@ -309,11 +309,13 @@ TypeAtx ==
            closing == At(Pick(<<"">>, <<"", " ##">>, <<"", " #", " ###  ">>), v)
            empty == (v + 3 * nblocks) % 5 = 4                      \* a heading without text: "##", "## ", "##  ##  ", "## #"
            l1 == IF empty THEN << >> ELSE LineAt(v)
-           rest == IF empty THEN At(<<"", " ", "  ##  ", " #">>, v \div 2 + nblocks) ELSE " " \o LineSrc(l1) \o closing IN
+           sp1 == IF Level = 2 /\ v % 6 = 5 THEN "{TAB}" ELSE " "          \* the hashes are followed by spaces or tabs
+           closingT == IF Level = 2 /\ v % 6 = 4 /\ closing = " #" THEN "{TAB}#" ELSE closing
+           rest == IF empty THEN At(<<"", " ", "  ##  ", " #">>, v \div 2 + nblocks) ELSE sp1 \o LineSrc(l1) \o closingT IN
        /\ IndOk(ind)
        /\ Leaf("atx", "atx", sep, Node("Heading", Parent, 0, lv, <<[atoms |-> l1, hard |-> FALSE]>>, ""),
                <<Spaces(ind) \o SubSeq("######", 1, lv) \o rest>>, Depth)
-       /\ tags' = tags \cup NcSep(sep) \cup NcIf(ind > 0 \/ (IF empty THEN rest # "" ELSE closing \notin {"", " #", " ##"}))
+       /\ tags' = tags \cup NcSep(sep) \cup NcIf(ind > 0 \/ (IF empty THEN rest # "" ELSE (closingT \notin {"", " #", " ##"} \/ sp1 # " ")))
 
 TypeSetext ==
     \E sep \in Seps, v \in Variants :
@@ -335,7 +337,7 @@ TypeSetext ==
 TypeHr ==
     \E sep \in Seps, v \in Variants :
        LET ind == At(Pick(<<0>>, <<0, 2>>, <<0, 1, 2, 3>>), v \div 2)
-           h == At(Pick(<<"***", "---">>, <<"***", "---", "* * *", "___">>, <<"***", "---", "___", "* * *", "-  -  -", "_____">>), v)
+           h == At(Pick(<<"***", "---">>, <<"***", "---", "* * *", "___">>, <<"***", "---", "___", "* * *", "-  -  -", "_____", "*{TAB}*{TAB}*", "_ _{TAB}_">>), v)
            ch == SubSeq(h, 1, 1) IN
        /\ IndOk(ind)
        /\ ~(InItemFirstLine /\ Top.marker = ch)
@@ -430,13 +432,15 @@ TypeTable ==
 
 (* HTML block: type 6 (<div>, ends at a blank line), type 1 (<pre>, ends at its end tag, may hold blank lines), type 2
    (comment).  May interrupt a paragraph; what follows needs a blank line (types 6) - typed after every kind for simplicity. *)
-HtmlBodies == << <<"<div>", "*raw* text", "</div>">>, <<"<div class=\"x\">hi</div>">>, <<"<pre>", "a", "", "  b", "</pre>">>, <<"<!-- c", "", "d -->">>, <<"<table><tr><td>", "x", "</td></tr></table>">> >>
+HtmlBodies == << <<"<div>", "*raw* text", "</div>">>, <<"<div class=\"x\">hi</div>">>, <<"<pre>", "a", "", "  b", "</pre>">>, <<"<!-- c", "", "d -->">>, <<"<table><tr><td>", "x", "</td></tr></table>">>,
+                <<"<?php", "", "echo '>';", "?>">>, <<"<!DOCTYPE html>">>, <<"<![CDATA[", "a", "", "]]>">>, <<"<custom-tag a=\"b\">", "*text*", "</custom-tag>">> >>
 TypeHtml ==
     \E sep \in Seps, v \in Variants :
        LET body == At(HtmlBodies, v) IN
-       /\ ~InItemFirstLine \/ TRUE
+       /\ (body[1] = "<custom-tag a=\"b\">" => ~(sep = "none" /\ last.inner = "para"))        \* start condition 7 cannot interrupt a paragraph
        /\ Leaf("html", "html", sep, Node("HtmlBlock", Parent, 0, 0, NoText, [body |-> body]), body, Depth)
        /\ tags' = tags \cup NcSep(sep) \cup NcIf(InQuote /\ \E i \in DOMAIN body : body[i] = "")
+                       \cup (IF body[1] = "<custom-tag a=\"b\">" THEN LazyTag(sep) ELSE {})     \* (what the reader takes for lazy text: it cannot interrupt a paragraph)
 
 (* link reference definition: no node, no output *)
 Dests  == Pick({"/u1", "/u2"}, {"/u1", "/u2"}, {"/u1", "/u2", "<a b>"})
@@ -483,7 +487,8 @@ OpenQuote ==
 Bullets == {"-", "+", "*"}
 MarkerSeq == Pick(<< [b |-> "-"], [n |-> 1, d |-> "."] >>,
                   << [b |-> "-"], [b |-> "*"], [n |-> 1, d |-> "."], [n |-> 7, d |-> "."] >>,
-                  << [b |-> "-"], [b |-> "+"], [b |-> "*"], [n |-> 1, d |-> "."], [n |-> 7, d |-> ")"], [n |-> 10, d |-> "."], [n |-> 1, d |-> ")"] >>)
+                  << [b |-> "-"], [b |-> "+"], [b |-> "*"], [n |-> 1, d |-> "."], [n |-> 7, d |-> ")"], [n |-> 10, d |-> "."], [n |-> 1, d |-> ")"],
+                     [n |-> 0, d |-> "."], [n |-> 123456789, d |-> ")"] >>)
 MarkerStr(m) == IF "b" \in DOMAIN m THEN m.b ELSE Digits(m.n) \o m.d
 MarkerType(m) == IF "b" \in DOMAIN m THEN m.b ELSE m.d
 SepKind(m) == IF "b" \in DOMAIN m THEN "blist" ELSE IF m.n = 1 THEN "olist1" ELSE "olist"
